@@ -55,6 +55,15 @@ fn run(ctx: &mut Ctx, extra: &mut BTreeMap<String, String>) {
             for &j in [0, 1, cnt / 4, cnt / 2, cnt - 1, rng.below(cnt)].iter() { let r = first + j.min(cnt - 1); judge_ring_index(c, layer, depth, r, r + 1 < n); if let Ok(h) = catch(|| layer.from_ring(r)) { if h < n { judge_nested_index(c, layer, depth, h); } } }
             c.hard("ring-index-next-to-a-power-of-two", &[depth as u64, i]);
           } } }
+          // rings i whose last cell has 2.hash + 1 = (2i+1)^2 - 2 next to a power of two 2^q (q odd included: i ~ 2^(q/2 - 1) is then not a
+          // power of two): the ring index is recovered through a floating-point square root of that quantity (exact below 2^53 only)
+          for q in 6..=63u32 { for off in -2i64..=2 { for &mirror in [false, true].iter() {
+            let i0 = ((2f64.powf(q as f64 / 2.0) - 1.0) / 2.0).round() as i64 + off; if i0 < 1 || i0 as u64 > ns { continue; }
+            let i = if mirror { 4 * ns - i0 as u64 } else { i0 as u64 };
+            let (first, cnt) = ring_first(ns, i);
+            for &j in [0, 1, 2, cnt / 2, cnt.saturating_sub(3), cnt.saturating_sub(2), cnt - 1].iter() { let r = first + j.min(cnt - 1); judge_ring_index(c, layer, depth, r, r + 1 < n); }
+            c.hard("polar-ring-whose-end-is-next-to-2^q/2(sqrt-precision)", &[depth as u64, i]);
+          } } }
         }
       }
     }
